@@ -151,6 +151,10 @@ def index_table_verdict(idx, vterm, nsites):
     wa = whole.single_atom() if whole is not None else None
     if isinstance(wa, T.App) and wa.op == "matmul" and wa.args[0] == vterm:
         return True, None
+    # (the same product in its normal form: batch axes added to the states are moved outside the product)
+    for m_ in (whole.all_atoms() if whole is not None else []):
+        if isinstance(m_, T.App) and m_.op == "matmul" and len(m_.args) == 2 and _strip_wrappers(T.app("matmul", vterm, m_.args[1])) == whole:
+            return True, None
     va = vterm.single_atom()
     if not (isinstance(va, T.App) and va.op == "upd"):
         return None, "expanded states are not an overwrite of some sites of the repeated states"
